@@ -524,6 +524,9 @@ class Interp:
                     e = e.value
                 elif v[0] == "tuple" and len(v[1]) == len(tgt.elts) and not any(x[0] == "star" for x in v[1]):
                     sub = v[1][i]
+                elif v[0] == "call" and v[1][0] == "attr" and v[1][2] == "span" and not v[2] and not v[3] and len(tgt.elts) == 2:
+                    # `start, end = m.span()` is `m.start()`, `m.end()` of the same match object
+                    sub = ("call", ("attr", v[1][1], "start" if i == 0 else "end"), (), (), v[4] if len(v) > 4 else 0)
                 else:
                     sub = ("unpack", v, i)
                 nxt = []
@@ -1361,6 +1364,13 @@ class Interp:
             return ("not", ("cmp", "In", a, b))
         if op == "Eq" and a[0] == "const" and b[0] != "const":
             a, b = b, a
+        if a[0] == "const" and b[0] == "const":
+            # both sides literal (a local still holding its initial None / 0 / ""): the comparison is its value
+            singletons = (None, True, False)
+            if op == "Is" and (any(a[1] is x_ for x_ in singletons) or any(b[1] is x_ for x_ in singletons)):
+                return const(a[1] is b[1])
+            if op == "Eq" and type(a[1]) is type(b[1]) and isinstance(a[1], (str, bytes, int, bool, type(None))):
+                return const(a[1] == b[1])
         return ("cmp", op, a, b)
 
     def e_IfExp(self, e: ast.IfExp, st, out):
